@@ -60,6 +60,13 @@ Theorem C13_prefix_is_before_singleton : forall toks id rem,
   toks <> [] -> spec_langid_prefix toks = Some (id, rem) -> ext_stop rem ->
   toks = fst (split_single toks) ++ rem /\ langid_from_bytes (join (fst (split_single toks))) = Ok id.
 Proof. exact prefix_before_singleton. Qed.
+(* the same for EVERY accepted locale string, strict or lenient (not only the MustAccept zone), whose identifier
+   part is directly followed by a singleton or by nothing *)
+Theorem C13_before_first_singleton_accepted : forall s l rem,
+  locale_from_bytes s = Ok l -> spec_langid_prefix (split s) = Some (loc_id l, rem) -> ext_stop rem ->
+  langid_from_bytes (join (fst (split_single (split s)))) = Ok (loc_id l).
+Proof. exact locale_id_before_singleton_accepted. Qed.
+Print Assumptions C13_before_first_singleton_accepted.
 (* in the executable form the oracle evaluates on every case (`before_single`, spec/Prefix.v) *)
 Theorem C13_before_first_singleton_exec : forall s v,
   spec_locale_zone (split s) = MustAccept v ->
